@@ -164,6 +164,14 @@ pub fn rig() -> Rig {
     Rig { tx, tap, inject, rx }
 }
 
+/// like `rig`, but the bootstrap (which decodes endpoints) happens on a helper thread, so the calling thread has not
+/// decoded anything yet
+pub fn rig_plain() -> Rig {
+    struct SendRig(Rig);
+    unsafe impl Send for SendRig {}
+    std::thread::spawn(|| SendRig(rig())).join().unwrap().0
+}
+
 fn collect_kinds(v: &Value, out: &mut Vec<char>) {
     match v {
         Value::Opt(Some(x)) | Value::Var(_, x) => collect_kinds(x, out),
@@ -396,6 +404,98 @@ pub fn dec_case(rng: &mut Rng, rig: &Rig, id: String, schema: &Schema, style: u6
             case.fail(format!("descriptors leaked by decode/drop: {:?}", extra));
         }
     }
+    case
+}
+
+// ------------------------------------------------------------------------------------------- C14 (receive inside a deserialisation)
+fn collect_atts(v: &Value, chans: &mut Vec<String>, shms: &mut Vec<String>) {
+    match v {
+        Value::Opt(Some(x)) | Value::Var(_, x) => collect_atts(x, chans, shms),
+        Value::Seq(vs) | Value::Tup(vs) => vs.iter().for_each(|x| collect_atts(x, chans, shms)),
+        Value::Sender(l, _) => chans.push(format!("s{}", l)),
+        Value::Receiver(l, _) => chans.push(format!("r{}", l)),
+        Value::Shm(l, _) => shms.push(l.to_string()),
+        _ => {},
+    }
+}
+
+pub fn nrecv_case(rng: &mut Rng, rig: &Rig, id: String) -> Case {
+    let mut case = Case::new(id);
+    let mut w = World::default();
+    // inner message, waiting on its own channel
+    let inner_schema = gen_schema(rng, 1, true);
+    let mut budget = 8usize;
+    let inner_v = gen_value(rng, &inner_schema, &mut w, &mut budget);
+    let inner_text = inner_v.text();
+    let (itx, irx) = ipc::channel::<Dyn>().unwrap();
+    itx.send(Dyn(inner_v)).unwrap();
+    NESTED_RX.with(|n| *n.borrow_mut() = vec![Some((irx, inner_schema.clone()))]);
+    NESTED_OUT.with(|o| o.borrow_mut().clear());
+    // outer message: attachments before, the nested receive, attachments after
+    let nb = rng.below(3) as usize;
+    let na = rng.below(3) as usize;
+    let mut parts: Vec<Schema> = (0..nb).map(|_| gen_schema(rng, 1, true)).collect();
+    parts.push(Schema::RecvInside(0));
+    parts.extend((0..na).map(|_| gen_schema(rng, 1, true)));
+    let outer_schema = Schema::Tup(parts);
+    let mut budget = 16usize;
+    let outer_v = gen_value(rng, &outer_schema, &mut w, &mut budget);
+    let outer_text = outer_v.text();
+    let (mut chl, mut shl) = (Vec::new(), Vec::new());
+    collect_atts(&outer_v, &mut chl, &mut shl);
+    let mut kinds = Vec::new();
+    collect_kinds(&outer_v, &mut kinds);
+    rig.tx.send(Dyn(outer_v)).unwrap();
+    let (bytes, mut chans, shms) = rig.tap.recv().unwrap();
+    let fwd: Vec<OsIpcChannel> = chans
+        .iter_mut()
+        .zip(kinds.iter())
+        .map(|(c, k)| if *k == 's' { OsIpcChannel::Sender(c.to_sender()) } else { OsIpcChannel::Receiver(c.to_receiver()) })
+        .collect();
+    rig.inject.send(&bytes, fwd, shms).unwrap();
+    expect(&outer_schema);
+    let res = catch_unwind(AssertUnwindSafe(|| rig.rx.recv()));
+    let outer_imp = match res {
+        Err(_) => "panic".to_string(),
+        Ok(Err(_)) => "err".to_string(),
+        Ok(Ok(Dyn(mut v))) => {
+            for p in probe_labels(&mut v, &w, rng.next() >> 8) {
+                case.fail(format!("outer: {}", p));
+            }
+            format!("ok {}", v.text())
+        },
+    };
+    let inner_imp = match NESTED_OUT.with(|o| o.borrow_mut().pop()) {
+        None => "not-received".to_string(),
+        Some(Err(e)) => format!("err {}", e),
+        Some(Ok(mut v)) => {
+            for p in probe_labels(&mut v, &w, rng.next() >> 8) {
+                case.fail(format!("inner: {}", p));
+            }
+            format!("ok {}", v.text())
+        },
+    };
+    case.pair(
+        format!(
+            "dec {} | {} | {} | {}",
+            outer_schema.text(),
+            hex(&bytes),
+            if chl.is_empty() { "-".into() } else { chl.join(",") },
+            if shl.is_empty() { "-".into() } else { shl.join(",") }
+        ),
+        outer_imp.clone(),
+    );
+    case.pair(format!("rt {} | {}", inner_schema.text(), inner_text), inner_imp.clone());
+    if outer_imp != format!("ok {}", outer_text) {
+        case.fail(format!("outer message with a receive inside its deserialisation: sent `{}` got `{}`", outer_text, outer_imp));
+    }
+    if inner_imp != format!("ok {}", inner_text) {
+        case.fail(format!("message received inside a deserialisation: sent `{}` got `{}`", inner_text, inner_imp));
+    }
+    case.nontrivial = !chl.is_empty() || !shl.is_empty();
+    case.key = format!("{}|{}|{}", outer_schema.text(), outer_text, inner_text);
+    case.tags.push(format!("nrecv_before={}", nb));
+    case.tags.push(format!("nrecv_after={}", na));
     case
 }
 
@@ -638,7 +738,25 @@ pub fn run(args: &[String]) {
             for i in 0..n {
                 let schema = &fam[(i as usize) % fam.len()];
                 let style = (i / fam.len() as u64) % 4;
-                let c = dec_case(&mut rng, &rig, format!("dec-{}", i), schema, style);
+                // every 8th case runs on a brand-new thread with its own rig: thread-local tables start out empty there
+                let c = if i % 8 == 7 {
+                    let mut r2 = Rng::new(rng.next());
+                    let schema = schema.clone();
+                    let id = format!("dec-{}", i);
+                    std::thread::spawn(move || {
+                        let rig = rig_plain();
+                        dec_case(&mut r2, &rig, id, &schema, style)
+                    })
+                    .join()
+                    .unwrap_or_else(|_| {
+                        let mut c = Case::new(format!("dec-{}", i));
+                        c.fail("decoding panicked (fresh thread)".into());
+                        c.pair("noop".into(), "ok".into());
+                        c
+                    })
+                } else {
+                    dec_case(&mut rng, &rig, format!("dec-{}", i), schema, style)
+                };
                 let stop = c.oracle.as_deref().map(|s| s.contains("panicked")).unwrap_or(false);
                 c.emit();
                 if stop {
@@ -650,6 +768,9 @@ pub fn run(args: &[String]) {
         "side" => {
             for i in 0..n {
                 side_case(&mut rng, format!("side-{}", i)).emit();
+                if i % 4 == 0 {
+                    nrecv_case(&mut rng, &rig, format!("nrecv-{}", i)).emit();
+                }
             }
         },
         _ => panic!("unknown wire mode"),
